@@ -80,7 +80,9 @@ func Check() *engine.Check {
 			"storage refuses (cloud_blob: permission denied, throttled). Two further parts: (start) the file_system provider started by its real " +
 			"Start() with a real watcher, one callback of the initial load held while the directory is changed (2 callbacks x 8 changes), a barrier " +
 			"file instead of sleeping; (cacheable) every sequence of up to 4 (thorough: 6) polls / content changes / clock advances over two " +
-			"http_endpoint endpoints that differ in the query only, responses cacheable for 60 s, one shared cache, against a private-cache model.",
+			"http_endpoint endpoints that differ in the query only, responses cacheable for 60 s, one shared cache, against a private-cache model; " +
+			"(scheduler) the cloud_blob provider built by its real constructor with the real gocron scheduler, two buckets, one processor call held " +
+			"for 15 watch intervals: no second poll of the same bucket reaches the processor meanwhile.",
 		Assumptions: []string{
 			"inotify/fsnotify event model: write to a new file = Create(+Write if bytes), overwrite = Write (truncation, if it had bytes) + Write (if bytes), remove = Remove, rename f->g = Rename(f)+Create(g), chmod = Chmod; at most 4 notifications pending; events of one file are delivered in order (inotify queue order), events of different files may be swapped, any event may be delivered twice (C18_SAME_SOURCE_REORDER=1 also swaps events of one file)",
 			"provider callbacks are called directly (ruleSetsChanged / watchChanges / informer handler funcs); fsnotify, gocron and the client-go informer machinery are not executed; the kubernetes handler wiring (FilteringResourceEventHandler over filter/add/update/delete) is replicated from newController; a deletion noticed by a re-list is delivered as cache.DeletedFinalStateUnknown as client-go documents",
@@ -176,6 +178,9 @@ func run(c *engine.Ctx) {
 
 	// same-path endpoints of the http_endpoint provider with cacheable responses and one shared cache
 	runCacheable(c)
+
+	// the cloud_blob provider under its real scheduler: polls of one bucket never overlap
+	RunBlobScheduler(c)
 
 	for _, pl := range plans(c, dir) {
 		if err := selfCheck(pl.sys); err != nil {
@@ -468,6 +473,16 @@ func replay(c *engine.Ctx, raw json.RawMessage) {
 
 	var part struct {
 		Part string `json:"part"`
+	}
+
+	if json.Unmarshal(raw, &part) == nil && part.Part == "blob-scheduler" {
+		if _, cleanup, ok := setup(c); ok {
+			defer cleanup()
+
+			RunBlobScheduler(c)
+		}
+
+		return
 	}
 
 	if json.Unmarshal(raw, &part) == nil && part.Part == "http-cacheable" {
